@@ -493,3 +493,15 @@ func ReplayCase(v interface{}) (sub string, ok bool) {
 	}
 	return rec.Sub, json.Unmarshal(rec.Case, v) == nil
 }
+
+// FindingKey returns the known-finding key the driver asked to re-execute.
+func FindingKey() string { return os.Getenv("VERIF_FINDING") }
+
+// FindingResult prints the line the driver looks for.
+func FindingResult(key string, reproduced bool, detail string) {
+	if reproduced {
+		fmt.Printf("FINDING-REPRODUCED key=%s %s\n", key, trunc(detail, 500))
+	} else {
+		fmt.Printf("FINDING-ABSENT key=%s %s\n", key, trunc(detail, 500))
+	}
+}
